@@ -4,22 +4,23 @@ import (
 	"encoding/json"
 	"fmt"
 	"os"
+	"path/filepath"
 	"time"
 )
 
 // Unit is one independently explorable piece of a property check (one scenario x bound).
 type Unit struct {
-	Name     string
-	Sc       *Scenario
-	Bound    int
-	Prune    bool
-	Weight   int // rough relative cost, for ordering
-	MaxExecs int
+	Name      string
+	Sc        *Scenario
+	Bound     int
+	Prune     bool
+	Weight    int // rough relative cost, for ordering
+	MaxExecs  int
 	NoConfirm bool
-	Shards   int // >1: the DFS tree is split at its first level over this many worker processes
-	Env      bool
-	Check    func(x *Exec) []Violation
-	Goal     func(x *Exec) []string
+	Shards    int // >1: the DFS tree is split at its first level over this many worker processes
+	Env       bool
+	Check     func(x *Exec) []Violation
+	Goal      func(x *Exec) []string
 	// Required goals must each be witnessed by at least one explored execution (exists-style
 	// clauses; decided by vcheck over all shards of the unit, only when exploration was exhaustive)
 	Required []string
@@ -50,11 +51,14 @@ type UnitResult struct {
 
 // RunUnit explores one unit and returns its result.
 func RunUnit(u *Unit, shard, nshards int, deadline time.Time, boundOverride int) *UnitResult {
-	dir, err := os.MkdirTemp(os.Getenv("VERIF_WORK"), "u-")
+	tmp, err := os.MkdirTemp(os.Getenv("VERIF_WORK"), "u-")
 	if err != nil {
 		return &UnitResult{Unit: u.Name, HarnessErr: err.Error()}
 	}
-	defer os.RemoveAll(dir)
+	defer os.RemoveAll(tmp)
+	// a fixed leaf name: scenarios may print the base name of the project directory
+	dir := filepath.Join(tmp, "proj")
+	os.MkdirAll(dir, 0o755)
 	if u.Custom != nil {
 		r := u.Custom(u, dir, deadline)
 		r.Unit = u.Name
